@@ -90,7 +90,10 @@ impl<'a> FciParser<'a> for Fir<'a> {
 /// Builder for a Full Intra Refresh packet
 #[derive(Debug, Default)]
 pub struct FirBuilder {
+    #[cfg(not(feature = "verif-hooks"))]
     ssrc_seq: HashMap<u32, u8>,
+    #[cfg(feature = "verif-hooks")]
+    ssrc_seq: HashMap<u32, u8, crate::verif_hooks::SimHashState>,
 }
 
 impl FirBuilder {
